@@ -244,3 +244,114 @@ def run_d(prog, res, floor=4):
                                     "value left over from an earlier wait makes this thread take a wake-up meant for another "
                                     "(lost wake-up)" % (fn.name, who, field), unit=fn.unit.display))
     return stat
+
+
+def run_e(prog, res, floor=5):
+    """the run queue is a list with two ends kept in two context globals: a function that changes the FRONT
+    global also maintains the BACK global (stores it, or on the way to / from that store nothing else re-points
+    FRONT).  A front that is updated alone leaves the tail pointing at a cell that is no longer (or not yet) in
+    the queue, and the next enqueue at the tail drops whatever hangs off the front."""
+    import tables
+    from cfg import elem_positions, enclosing_elem, reach_without
+    stat = res.stat("C11.e", "every store to the run queue's FRONT global is accompanied by a store to its BACK global "
+                    "reachable from it (or reaching it) without another FRONT store in between", floor=floor)
+    en = dict(tables.enum_values(prog, const_prefix="SEXP_G_THREADS_FRONT"))
+    F, B = en.get("SEXP_G_THREADS_FRONT"), en.get("SEXP_G_THREADS_BACK")
+    if F is None or B is None:
+        raise AnalysisBroken("anchor vanished: SEXP_G_THREADS_FRONT / SEXP_G_THREADS_BACK")
+
+    def global_store(fn, nd):
+        out = []
+        if nd["k"] == "bin" and nd["o"] == "=":
+            l = fn.strip(nd["c"][0])
+            ln = fn.nodes[l]
+            if ln["k"] == "idx" and "context.globals" in fn.txt(ln["c"][0]):
+                out.append(fn.const_val(ln["c"][1]))
+        return out
+    for fn in prog.all_funcs():
+        if not fn.blocks:
+            continue
+        fs, bs = [], []
+        for i, nd in enumerate(fn.nodes):
+            for g in global_store(fn, nd):
+                if g == F:
+                    fs.append(i)
+                elif g == B:
+                    bs.append(i)
+        if not fs:
+            continue
+        pos = elem_positions(fn)
+        fpos = {i: enclosing_elem(fn, i, pos) for i in fs}
+        bpos = [enclosing_elem(fn, i, pos) for i in bs]
+        for i in fs:
+            stat.sites += 1
+            stat.obligations += 1
+            p = fpos[i]
+            others = {q for j, q in fpos.items() if j != i and q is not None and q != p}
+            ok = False
+            for q in bpos:
+                if q is None or p is None:
+                    continue
+                if q == p or reach_without(fn, p, q, others) or reach_without(fn, q, p, others):
+                    ok = True
+                    break
+            if ok:
+                stat.discharged += 1
+                stat.sample({"function": fn.name, "site": fn.where(i)}, limit=6)
+            else:
+                res.add(Finding("C11", "C11.e.front-without-back", fn.name, "store to THREADS_FRONT", fn.where(i),
+                                "%s re-points the run queue's FRONT global without maintaining its BACK global: when the queue "
+                                "was empty the tail still says so, and the next thread appended at the tail replaces the whole "
+                                "queue - the thread just made runnable is never scheduled again" % fn.name,
+                                unit=fn.unit.display))
+    return stat
+
+
+def run_f(prog, res, floor=1):
+    """a function that sets a thread's wake-up deadline on some path sets it on every path: the deadline of an
+    earlier timed wait must not survive into an untimed one (the scheduler wakes every paused thread whose
+    non-zero deadline has passed, and the lock / join primitives take that wake-up for a timeout)"""
+    from cfg import elem_positions, enclosing_elem, reach_without
+    stat = res.stat("C11.f", "functions that write the deadline (context.tval) of a thread they were handed write it on every path",
+                    floor=floor)
+    for fn in prog.all_funcs():
+        if fn.unit.name != "threads.c" or not fn.blocks:
+            continue
+        defs = {}
+        for i, nd in enumerate(fn.nodes):
+            tgt = None
+            if nd["k"] == "bin" and nd["o"] in ("=", "+=", "-="):
+                # `+=` counts: it follows a gettimeofday() under a test that the type dispatch repeats (fixnum => real),
+                # a correlation the path enumeration does not see
+                tgt = fn.strip(nd["c"][0])
+            elif nd["k"] == "un" and nd["o"] == "&" and fn.parent(i) is not None:
+                par = fn.parent(i)
+                while par is not None and fn.nodes[par]["k"] == "cast":
+                    par = fn.parent(par)
+                if par is not None and fn.nodes[par]["k"] == "call":
+                    tgt = fn.strip(nd["c"][0])      # &tval handed to a call that fills it (gettimeofday)
+            if tgt is None or fn.nodes[tgt]["k"] != "mem":
+                continue
+            root, path = fn.mempath(tgt)
+            if path[:3] != ["value", "context", "tval"] or (len(path) > 3 and path[3] != "tv_sec"):
+                continue
+            r = fn.strip(root)
+            if fn.nodes[r]["k"] == "ref" and fn.nodes[r].get("d") in fn.params:
+                defs.setdefault(fn.nodes[r]["d"], []).append(i)
+        if not defs:
+            continue
+        pos = elem_positions(fn)
+        for vid, sites in defs.items():
+            stat.sites += 1
+            stat.obligations += 1
+            kills = {enclosing_elem(fn, i, pos) for i in sites} - {None}
+            if not reach_without(fn, (fn.entry, -1), (fn.exit, 0), kills):
+                stat.discharged += 1
+                stat.sample({"function": fn.name, "thread": fn.vars[vid]["n"], "defining_sites": len(sites)})
+            else:
+                res.add(Finding("C11", "C11.f.deadline-not-defined", fn.name, "tval of %s" % fn.vars[vid]["n"], fn.where(sites[0]),
+                                "%s sets the wake-up deadline of `%s` on some paths but returns on another without defining it: "
+                                "the deadline of an earlier timed wait survives, the scheduler wakes the thread as timed out and "
+                                "an untimed mutex-lock! / thread-join! reports a timeout that was never asked for"
+                                % (fn.name, fn.vars[vid]["n"]), unit=fn.unit.display))
+    return stat
